@@ -81,7 +81,7 @@ func cmdHarness(args []string) {
 	loop := fs.Int("loop", 64, "")
 	fs.Parse(args)
 	t0 := time.Now()
-	ov, err := overlayFor([]string{*pkg})
+	ov, err := overlayFor([]string{*pkg, "util", "topics", "packets1", "transactions"})
 	if err != nil {
 		panic(err)
 	}
@@ -102,7 +102,11 @@ func cmdHarness(args []string) {
 		fmt.Sscan(a, &x)
 		hargs = append(hargs, x)
 	}
-	w, err := sym.NewWorker(e, sym.Options{Solver: *solver, MaxPaths: *maxPaths, LoopBound: *loop})
+	w, err := sym.NewWorker(e, sym.Options{Solver: *solver, MaxPaths: *maxPaths, LoopBound: *loop, AssertPrefix: os.Getenv("VPREFIX")})
+	if lf := os.Getenv("VSMTLOG"); lf != "" {
+		f, _ := os.Create(lf)
+		w.S.Log = f
+	}
 	if err != nil {
 		panic(err)
 	}
